@@ -213,6 +213,12 @@ def run(ctx):
                     ctx.sample({"machine": "C04_Symmetry", "state": rec})
     if len(ops_seen) < 9 or nstate == 0:
         raise tlc.MachineryFailure("C04: vacuous run, operations seen %s" % sorted(ops_seen))
+    # unbounded lemmas about the plane maps (TLAPS): dihedral relations for every N; LibSanity ties the proved
+    # coordinate formulas to D4!DMap.  A missing tlapm is only noted.
+    ok_l, detail = tlc.tlaps_prove("specs/proofs/D4_Lemmas.tla")
+    if not ok_l and "not runnable" not in detail:
+        raise tlc.MachineryFailure("D4_Lemmas: TLAPS did not prove the dihedral relations: " + detail)
+    ctx.note("proved_lemmas", {"D4_Lemmas (r1^4 = id, rev r1 rev = r3, rev comp = r2, inv rev = r1, maps stay in the square; all N; TLAPS)": detail})
     ctx.exhaustive = True
     ctx.note("edges_replayed", nedge)
     ctx.note("states_replayed", nstate)
